@@ -283,3 +283,26 @@ META["C06"] = dict(
     level_note="Two input classes are known-bad and unmonitored (see known_findings.json). Trusts the canonical delivery as reference (checked by C02/C05).",
     design_ref="DESIGN.md §5 C06",
 )
+
+PLANS["C07"] = dict(
+    level="exploration",
+    rule=("a catalogue application with handlers for all 13 built-in param types (10 integer widths in bare, 1-tuple, (T, String) and (String, T) form; String, Cow<str>, &str) and the extractors "
+          "Query, JSON, URLEncoded, Multipart, Text, their Option forms and two combinations (param + Query + JSON; two params + Query + Option<Text>). Segments: MIN/MAX and +-1 of every width, "
+          "2^64+-1, 30 digits, digits+garbage, +sign, -0, leading zeros, decimal point, percent-encoded digits, %FF, %2F, trailing space, letters, negatives, in-range random; Content-Type exact / "
+          "with charset / mismatching / missing / prefix-sharing; valid and invalid bodies (wrong types, missing fields, trailing bytes, truncation, invalid UTF-8). Oracle: Rust FromStr on the whole "
+          "decoded segment for integers (canonical in-range forms must arrive with that value; out-of-range / garbage must stop the handler with status >= 400; forms the statement is silent on are "
+          "not judged), percent-decoding for strings, serde_json on the same bytes for JSON, the generator's own values for the other bodies; Option is None only if the item is absent. "
+          "distinct_nontrivial = distinct (signature, segment/body class, Content-Type class)."),
+    quick=[R("c07", "rel", 6_000), R("c07", "dbg", 2_000), R("c07", "miri", 8, shards=8, flags={"small": 1})],
+    thorough=[R("c07", "rel", 150_000), R("c07", "dbg", 40_000), R("c07", "asan", 40_000), R("c07", "miri", 160, shards=16, flags={"small": 1})],
+    floors={"quick": {"evaluations": 250_000, "distinct": 800, "delivered_exactly": 80_000, "refused_as_expected": 50_000}, "thorough": {"evaluations": 6_000_000, "distinct": 900}},
+    assumptions=["1-param handlers are registered on 1-param routes only (which parameter a shorter signature gets on a longer route is not stated)", "+5, -0 and leading zeros are 'silent' forms: not judged",
+                 "prefix-sharing Content-Types (application/jsonx) are not judged", "multipart text fields decode into string-like fields only (as serde_multipart documents)"],
+)
+META["C07"] = dict(
+    engine="vh c07",
+    technique="runtime monitoring: reference-parsing oracle (Rust FromStr / serde_json / generator-known values) over generated segments, Content-Types and bodies, through the real parser, router and IntoHandler glue; release and debug builds both (wrapping vs panicking arithmetic), ASan/Miri",
+    level_text="Typed values are read from a trace written by the handlers (or its absence), so both 'exact value' and 'handler does not run' are observed directly for every request.",
+    level_note="Trusts FromStr/serde_json as references and the classification of silent forms. One fixed catalogue of signatures, sampled inputs.",
+    design_ref="DESIGN.md §5 C07",
+)
